@@ -673,6 +673,12 @@ func (s *s4) converge(when string) bool {
 		return false
 	}
 	if connected && lastDiff != "" {
+		if db := mustDB(e, s.srv); len(integrityProblems(e.Sch, db)) > 0 || len(dupIndexTuples(e.Sch, db)) > 0 {
+			// the database itself holds a dangling reference or a duplicate (listed C04 /
+			// C06 findings): what it stores and what it announced cannot both be right
+			e.Abort("database violates referential integrity or an index: C04's / C06's concern")
+			return false
+		}
 		e.ViolateK("C16.mirror", s.mirrorKey(s.mc, mustDB(e, s.srv), mustCache(s, s.mc))+fmt.Sprintf(":monitors=%d", len(s.mc.mons)), "%s: the client reports being connected but %v after the last fault its cache still differs from the database (database vs cache):\n%s\nmonitors: %s\nfaults: %v\nclient log: %v", when, e.Now()-s.lastFault, lastDiff, s.descMons(s.mc), e.Faults, tail(s.mc.ci.Log.lines, 10))
 		return false
 	}
